@@ -208,6 +208,17 @@ def _issue_batch(st: Stack, calls: List[gen.LogicalCall], notation: str, hand_id
     if notation == 'getitem':
         items = [(c.method, *c.args) for c in calls]
         return _tuple_outcome(lambda: st.run(lambda: b[items]))
+    if notation == 'add_getitem':
+        # the first calls are queued with add / notify, the batch is completed and sent with the bracket notation
+        split = next(k for k in range(len(calls)) if all(not c.kwargs and not c.notification for c in calls[k:]))
+        split = max(split, min(1, len(calls) - 1))
+        for c in calls[:split]:
+            if c.notification:
+                b.notify(c.method, *c.args, **c.kwargs)
+            else:
+                b.add(c.method, *c.args, **c.kwargs)
+        items = [(c.method, *c.args) for c in calls[split:]]
+        return _tuple_outcome(lambda: st.run(lambda: b[items]))
     if notation == 'proxy':
         p = b.proxy
         for c in calls:
@@ -398,6 +409,8 @@ def fam_batch(w: World) -> None:
     _plan_pauses(w, calls)
     positional = all(not c.kwargs for c in calls) and not any(c.notification for c in calls)
     notations = [x for x in BATCH_NOTATIONS if x != 'getitem' or positional]
+    if n >= 2 and not calls[-1].kwargs and not calls[-1].notification:
+        notations.append('add_getitem')
     first = ch.choice(notations, 'notation')
     second = notations[(notations.index(first) + 1 + ch.draw(max(1, len(notations) - 1), 'notation2')) % len(notations)]
     w.scenario = {'cfg': cfg, 'calls': [c.describe() for c in calls], 'notations': [first, second]}
